@@ -21,7 +21,7 @@ var recAlphabet = []string{"not started", "running", "failed", "canceled", "fini
 
 // retryGraph builds the graph of a retry exactly as the agent does: the recorded
 // node table goes through the persisted JSON form (model.Status) and Node.ToNode.
-func retryGraph(steps []dag.Step, recorded []string) (*scheduler.ExecutionGraph, error) {
+func retryGraph(steps []dag.Step, recorded []string, recRetry []int) (*scheduler.ExecutionGraph, error) {
 	st := &model.Status{RequestID: "orig", Name: "prog"}
 	t0 := time.Date(2029, 12, 31, 23, 0, 0, 0, time.UTC)
 	for i, s := range steps {
@@ -36,6 +36,10 @@ func retryGraph(steps []dag.Step, recorded []string) (*scheduler.ExecutionGraph,
 		}
 		if recorded[i] == "failed" {
 			state.Error = fmt.Errorf("exit status 1")
+		}
+		if recRetry != nil {
+			state.RetryCount = recRetry[i]
+			state.DoneCount += recRetry[i]
 		}
 		st.Nodes = append(st.Nodes, model.FromNode(scheduler.NodeData{Step: s, State: state}))
 	}
@@ -52,6 +56,13 @@ func retryGraph(steps []dag.Step, recorded []string) (*scheduler.ExecutionGraph,
 		nodes = append(nodes, n.ToNode())
 	}
 	return scheduler.NewExecutionGraphForRetry(venv.Quiet, nodes...)
+}
+
+func recRetryOf(cfg *Config, i int) int {
+	if cfg.RecRetry == nil {
+		return 0
+	}
+	return cfg.RecRetry[i]
 }
 
 // consistentRecord: can a finished, stopped or crashed run leave this table behind?
@@ -179,6 +190,20 @@ func oracleC10(x *Exec) []verdict {
 				licensed = false
 			}
 		}
+		if s.HasRetry && licensed && !s.Unmet {
+			// the re-executed step runs as its definition says: a fresh retry budget
+			want := limitOf(s)
+			if k := failK(s); k < want {
+				want = k
+			}
+			want++
+			if nStart != want {
+				out = append(out, verdict{fmt.Sprintf("C10/reexecuted-step-retry-budget(want=%d,got=%d)", want, nStart), fmt.Sprintf("%s (fail first %d, retry limit %d; recorded %s with retry count %d) was executed %d times by the retry, its own definition gives %d; final %s", s.Name, s.Fail, s.Limit, rec[i], recRetryOf(cfg, i), nStart, want, f.Status)})
+			} else if f != nil && f.RetryCount != nStart-1 {
+				out = append(out, verdict{"C10/reexecuted-step-retry-count-mismatch", fmt.Sprintf("%s: %d extra attempts made by the retry, recorded retry count %d (the record it started from had %d)", s.Name, nStart-1, f.RetryCount, recRetryOf(cfg, i))})
+			}
+			continue
+		}
 		switch {
 		case licensed && !s.Unmet && nStart == 0:
 			out = append(out, verdict{"C10/unfinished-step-not-reexecuted(recorded=" + rec[i] + ")", fmt.Sprintf("%s (recorded %s, or downstream of an unfinished step) was not executed by the retry; final %s", s.Name, rec[i], f.Status)})
@@ -253,6 +278,28 @@ func c10family(thorough bool, add func(cfg *Config, bound int, maxExec int64, or
 				add(&rc, 0, 200000, "C10")
 			}
 		})
+	}
+	// retry budget: a step with a retryPolicy that had used (part of) its retries in the recorded run gets a fresh budget
+	for L := 1; L <= 2; L++ {
+		for k := 0; k <= L+1; k++ {
+			for _, ra := range []struct {
+				st string
+				rc int
+			}{{"failed", L}, {"canceled", 1}, {"running", 1}, {"not started", 1}, {"failed", 0}} {
+				a := retrying(st("a"), k, L, 0)
+				for _, shape := range []int{1, 2} {
+					c := &Config{Steps: []StepCfg{a}, Recorded: []string{ra.st}, RecRetry: []int{ra.rc}}
+					if shape == 2 {
+						c = &Config{Steps: []StepCfg{a, st("b", "a")}, Recorded: []string{ra.st, "not started"}, RecRetry: []int{ra.rc, 0}}
+						if ra.st == "failed" {
+							c.Recorded[1] = "canceled"
+						}
+					}
+					tables++
+					add(c, 0, 200000, "C10")
+				}
+			}
+		}
 	}
 	base := []scriptT{scriptsFull[0], scriptsFull[1], scriptsFull[2]}
 	for n := 1; n <= maxN; n++ {
